@@ -29,7 +29,65 @@ ASSUMPTIONS = ["trajectory validity of Policy.run_on itself is C14's subject; he
 COMPONENTS = ["initial_state_dist", "actions", "next_state_dist", "reward", "is_absorbing", "state_list", "action_list"]
 
 
+def _long_option(case, rng):
+    """an option that needs MORE THAN A THOUSAND primitive steps (a 1100-1600 cell corridor, step limit above that): it ends at
+    its terminal cell after exactly that many steps, with the discounted sum of that many rewards"""
+    from msdm.core.semimdp.option import Option
+    from msdm.core.semimdp.semimdp import SemiMarkovDecisionProcess
+    from msdm.core.mdp import FunctionalPolicy
+    from msdm.core.mdp.mdp import MarkovDecisionProcess
+    from msdm.core.distributions import DictDistribution
+    n = rng.choice([1100, 1300, 1600])
+    gamma = rng.choice([1.0, 0.999])
+    limit = rng.choice([2000, 5000])
+
+    class Corridor(MarkovDecisionProcess):
+        discount_rate = gamma
+        def initial_state_dist(self_): return DictDistribution({0: 1.0})
+        def actions(self_, s): return ("right", "left")
+        def next_state_dist(self_, s, a): return DictDistribution({min(s + 1, n): 1.0}) if a == "right" else DictDistribution({max(s - 1, 0): 1.0})
+        def reward(self_, s, a, ns): return -1.0
+        def is_absorbing(self_, s): return False
+
+    class Walk(Option):
+        def __init__(self_):
+            self_.name, self_.max_steps = "walk-to-the-end", limit
+            self_.policy = FunctionalPolicy(lambda s: DictDistribution({"right": 1.0}))
+        def is_initial(self_, s): return True
+        def is_terminal(self_, s): return s == n
+    mdp, opt = Corridor(), Walk()
+    start = rng.choice([0, 0, 50])
+    case.family = "long-option"
+    case.params = dict(cells=n, gamma=gamma, max_steps=limit, start=start)
+    case.nontrivial = True
+    case.sig("long-option", n, gamma, limit, start)
+    case.count("options_of_more_than_a_thousand_steps")
+    sim = case.call("Option.run_on", opt.run_on, mdp, initial_state=start, rng=_random.Random(0))
+    case.count("option_runs")
+    if sim is not case.FAIL:
+        case.count("option_runs_returned")
+        case.check(sim.state[-1] == n and len(list(sim.steps)) - 1 == n - start, "option:does-not-end-at-first-terminal-state",
+                   lambda: f"ended at {sim.state[-1]!r} after {len(list(sim.steps)) - 1} steps (terminal cell {n}, {n - start} steps away)")
+    semi = SemiMarkovDecisionProcess(mdp=mdp, options=[opt], n_option_simulations=2, seed=rng.choice([0, 7]))
+    d = case.call("semi.option-outcomes", semi.next_state_transit_time_reward_dist, start, opt)
+    case.count("semimdp_option_outcomes")
+    if d is not case.FAIL:
+        steps = n - start
+        cum = -float(steps) if gamma == 1.0 else -(1 - gamma ** steps) / (1 - gamma)
+        got = {k: v for k, v in d.items() if v > 0}
+        ok = len(got) == 1 and abs(sum(got.values()) - 1) < 1e-12
+        if ok:
+            (e_, t_, r_), = got.keys()
+            ok = e_ == n and t_ == steps and abs(r_ - cum) <= 1e-9 * abs(cum)
+        case.check(ok, "semimdp:outcome-distribution!=empirical-distribution-of-its-simulations",
+                   lambda: f"{got!r}; every simulation ends in cell {n} after {steps} steps with return {cum!r}")
+    for k in ("augment_calls", "components_compared", "primitive_outcomes", "captured_simulations"):
+        case.count(k, 0)
+
+
 def run_case(case, rng):
+    if rng.random() < (0.012 if case.tier == "quick" else 0.002):
+        return _long_option(case, rng)
     from msdm.core.semimdp.option import Option, PlanToSubgoalOption, augment
     from msdm.core.semimdp.semimdp import SemiMarkovDecisionProcess
     from msdm.core.mdp import FunctionalPolicy
@@ -116,6 +174,47 @@ def run_case(case, rng):
                     for ns in want:
                         cmp("reward", d.reward(s, a, ns), fn("reward")(s, a, ns))
         case.call("derived.functions", body, facts=f2)
+
+        # downstream use of the derived MDP: what it enumerates and tabulates is ITS OWN functions (not the base's, and not what
+        # the base had memoised before the derivation)
+        if rng.random() < 0.5 and hasattr(d, "transition_matrix"):
+            def tabulated():
+                bad = []
+                dS, dA = list(d.state_list), list(d.action_list)
+                T_ = np.array(d.transition_matrix)
+                for i_, s in enumerate(dS):
+                    av = tuple(d.actions(s))
+                    for j_, a in enumerate(dA):
+                        want_ = np.zeros(len(dS))
+                        if a in av:
+                            for ns, p in d.next_state_dist(s, a).items():
+                                if p > 0 and ns in dS:
+                                    want_[dS.index(ns)] += p
+                        if not np.allclose(T_[i_, j_], want_, atol=1e-12):
+                            bad.append((s, a))
+                # reachable_states() of the derived MDP = closure under ITS functions from ITS initial support
+                seen_ = [s for s, p in d.initial_state_dist().items() if p > 0]
+                front_ = list(seen_)
+                while front_:
+                    s = front_.pop()
+                    if d.is_absorbing(s):
+                        continue
+                    for a in d.actions(s):
+                        for ns, p in d.next_state_dist(s, a).items():
+                            if p > 0 and ns not in seen_:
+                                seen_.append(ns)
+                                front_.append(ns)
+                got_ = set(d.reachable_states())
+                return bad, got_, set(seen_)
+            tb = case.call("derived.transition_matrix / reachable_states", tabulated, facts=f2)
+            case.count("derived_models_tabulated")
+            if tb is not case.FAIL:
+                case.check(not tb[0], "augment:tabulated-transitions-differ-from-the-derived-model's-own-functions",
+                           lambda: f"overridden={sub!r}: {tb[0][:3]!r}", **f2)
+                init_abs = any(d.is_absorbing(s) for s, p in d.initial_state_dist().items() if p > 0)
+                if not init_abs:      # (an absorbing INITIAL state is expanded by reachable_states: C06's recorded finding)
+                    case.check(tb[1] == tb[2], "augment:reachable_states-differs-from-the-derived-model's-own-closure",
+                               lambda: f"overridden={sub!r}: {sorted(map(repr, tb[1]))} vs {sorted(map(repr, tb[2]))}", **f2)
 
     # ---- a base MDP that is NOT tabular (plain QuickMDP): the function components and the discount still carry over ----
     if rng.random() < 0.4:
